@@ -28,7 +28,6 @@
      * components are created in start order (the real order is pipelines, then extensions) and
        shut down in exactly the reverse start order; orders are C10's business
      * signal.Notify is merged with the first transition to Running (it follows it immediately)
-     * setCollectorState(Starting) is merged with the configuration retrieval that follows it
      * the environment's history `hist` (used to project a behaviour to a script for the real
        collector, see CollectorGen) does not influence behaviour and is hidden by the VIEW       *)
 EXTENDS CollectorObs, TLC
@@ -88,7 +87,7 @@ ToS(n) == ToString(n)
 \* the callback of the real run loop that is nearest to the current position (see harness/collector)
 Anchor ==
   CASE pc = "init"                      -> "pre"
-    [] pc = "get"                       -> "get:" \o ToS(gen + 1)
+    [] pc \in {"setstarting", "get"}    -> IF gen = 0 /\ pc = "setstarting" THEN "pre" ELSE "get:" \o ToS(gen + 1)
     [] pc = "create"                    -> "create:" \o ToS(gen) \o ":" \o CompSeq[i]
     [] pc \in {"startA", "startB"}      -> "start:" \o ToS(gen) \o ":" \o CompSeq[i]
     [] pc \in {"stopA", "stopB", "stopC", "stopCf"} -> "stop:" \o ToS(gen) \o ":" \o StopSeq[i]
@@ -122,19 +121,25 @@ StartComp  == CompSeq[i]
 StopComp   == StopSeq[i]
 
 RunBegin ==
-  /\ pc = "init" /\ pc' = "get"
+  /\ pc = "init" /\ pc' = "setstarting"
   /\ UNCHANGED <<i, cur, mode, state, gen, fs, rmu, fpc, ftg, shutReq, ctxDone, sigReg, sigQ, wbuf, wblk, wclosed,
                  openA, openB, apend, sdoneG, stopErr, nenv, nfail, o, hist>>
 
-\* setupConfigurationComponents: state := Starting; configProvider.Get: the resolver closes the
-\* previous retrievals and retrieves again; the configuration may be unusable
+\* setupConfigurationComponents: state := Starting
+SetStarting ==
+  /\ pc = "setstarting" /\ state' = "Starting" /\ pc' = "get" /\ o' = OSample(o, "Starting")
+  /\ UNCHANGED <<i, cur, mode, gen, fs, rmu, fpc, ftg, shutReq, ctxDone, sigReg, sigQ, wbuf, wblk, wclosed,
+                 openA, openB, apend, sdoneG, stopErr, nenv, nfail, hist>>
+
+\* configProvider.Get: the resolver closes the previous retrievals and retrieves again; the
+\* configuration may be unusable
 Get ==
   /\ pc = "get" /\ gen < MaxGen
-  /\ state' = "Starting" /\ gen' = gen + 1 /\ openA' = TRUE /\ openB' = TRUE /\ stopErr' = FALSE
+  /\ gen' = gen + 1 /\ openA' = TRUE /\ openB' = TRUE /\ stopErr' = FALSE
   /\ \/ /\ NoFail /\ pc' = "create" /\ i' = 1
      \/ /\ Fail("get:" \o ToS(gen + 1)) /\ pc' = "bufail" /\ i' = i
-  /\ o' = OGet(o, gen + 1, "Starting")
-  /\ UNCHANGED <<cur, mode, fs, rmu, fpc, ftg, shutReq, ctxDone, sigReg, sigQ, wbuf, wblk, wclosed, apend, sdoneG, nenv>>
+  /\ o' = OGet(o, gen + 1, state)
+  /\ UNCHANGED <<cur, mode, state, fs, rmu, fpc, ftg, shutReq, ctxDone, sigReg, sigQ, wbuf, wblk, wclosed, apend, sdoneG, nenv>>
 
 \* service.New: the components are created one by one; a factory may fail (nothing is shut down then)
 Create ==
@@ -276,7 +281,7 @@ StopC ==
        THEN i' = i + 1 /\ pc' = "stopA" /\ sdoneG' = sdoneG /\ apend' = apend
        ELSE /\ i' = i /\ sdoneG' = sdoneG \cup {gen}
             /\ apend' = apend \ {gen}     \* (Blocking = FALSE) pending senders of this service give up
-            /\ pc' = CASE mode = "retire"    -> IF stopErr THEN "reterr" ELSE "get"
+            /\ pc' = CASE mode = "retire"    -> IF stopErr THEN "reterr" ELSE "setstarting"
                        [] mode = "final"     -> "setclosed"
                        [] mode = "startfail" -> "bufail"
   /\ UNCHANGED <<cur, mode, state, gen, rmu, fpc, ftg, shutReq, ctxDone, sigReg, sigQ, wbuf, wblk, wclosed,
@@ -299,7 +304,7 @@ SetClosed ==
   /\ UNCHANGED <<i, cur, mode, gen, fs, rmu, fpc, ftg, shutReq, ctxDone, sigReg, sigQ, wbuf, wblk, wclosed,
                  openA, openB, apend, sdoneG, stopErr, nenv, nfail, hist>>
 
-RunNext == RunBegin \/ Get \/ Create \/ StartA \/ StartB \/ SetRunning
+RunNext == RunBegin \/ SetStarting \/ Get \/ Create \/ StartA \/ StartB \/ SetRunning
            \/ SelWatch \/ SelAsync \/ SelSignal \/ SelShutdown \/ SelCtx
            \/ Retire0 \/ Closing \/ WClose \/ PCloseA \/ PCloseB \/ ProvSd \/ StopA \/ StopB \/ StopC
            \/ BuFail \/ RetErr \/ SetClosed
@@ -346,21 +351,22 @@ ExtShutdown ==
   /\ UNCHANGED <<pc, i, cur, mode, state, gen, fs, rmu, fpc, ftg, ctxDone, sigReg, sigQ, wbuf, wblk, wclosed,
                  openA, openB, apend, sdoneG, stopErr, nfail>>
 ExtCtx ==
-  /\ ~ctxDone /\ pc \notin {"init", "returned"} /\ Env("ctx", "") /\ ctxDone' = TRUE
+  /\ ~ctxDone /\ pc \notin {"init", "returned"} /\ ~(pc = "setstarting" /\ gen = 0) /\ Env("ctx", "") /\ ctxDone' = TRUE
   /\ o' = OExtCtx(o, state)
   /\ UNCHANGED <<pc, i, cur, mode, state, gen, fs, rmu, fpc, ftg, shutReq, sigReg, sigQ, wbuf, wblk, wclosed,
                  openA, openB, apend, sdoneG, stopErr, nfail>>
 \* the number of reloads is bounded by bounding the triggers
 Triggers == o.ntrig
 ExtSignal(s) ==
-  /\ pc \notin {"init", "returned"} /\ (s = "sighup" => Triggers < MaxGen - 1) /\ Env(s, "")
+  /\ pc \notin {"init", "returned"} /\ ~(pc = "setstarting" /\ gen = 0) /\ (s = "sighup" => Triggers < MaxGen - 1) /\ Env(s, "")
   /\ sigQ' = IF sigReg /\ Len(sigQ) < 3 THEN Append(sigQ, IF s = "sighup" THEN "hup" ELSE "term") ELSE sigQ
   /\ o' = IF s = "sighup" THEN OExtSighup(o, sigReg, state) ELSE OExtSigterm(o, sigReg, state)
   /\ UNCHANGED <<pc, i, cur, mode, state, gen, fs, rmu, fpc, ftg, shutReq, ctxDone, sigReg, wbuf, wblk, wclosed,
                  openA, openB, apend, sdoneG, stopErr, nfail>>
 \* a provider calls the watcher function of a retrieval that is still open: Resolver.onChange
+MaxBlocked == 1     \* bound on notifiers blocked on the full buffer (CollectorStrict admits more)
 ExtChange(v) ==
-  /\ (openA \/ openB) /\ (v = "ok" => Triggers < MaxGen - 1) /\ Len(wblk) < 1
+  /\ (openA \/ openB) /\ (v = "ok" => Triggers < MaxGen - 1) /\ Len(wblk) < MaxBlocked
   /\ Env(IF v = "ok" THEN "change" ELSE "change_err", "")
   /\ LET o1 == IF v = "ok" THEN OExtChange(o, state) ELSE OSample(o, state) IN
      IF wclosed
